@@ -184,6 +184,15 @@ func (idx *FlatIndex) Add(vector VectorNode) error {
 	}
 
 	// Simply append the preprocessed vector to our flat storage
+	// Re-adding an id that is still soft-deleted: purge the tombstoned entry
+	// first. Otherwise the new content would stay hidden behind the old
+	// tombstone and be dropped, together with the old one, by the next Flush.
+	if idx.deletedNodes.Contains(vector.ID()) {
+		if err := idx.flushLocked(); err != nil {
+			return err
+		}
+	}
+
 	idx.vectors = append(idx.vectors, vector)
 	return nil
 }
@@ -266,6 +275,13 @@ func (idx *FlatIndex) Remove(vector VectorNode) error {
 func (idx *FlatIndex) Flush() error {
 	idx.mu.Lock()
 	defer idx.mu.Unlock()
+
+	return idx.flushLocked()
+}
+
+// flushLocked physically removes all soft-deleted entries.
+// The caller must hold idx.mu for writing.
+func (idx *FlatIndex) flushLocked() error {
 
 	// Quick exit if nothing to flush
 	deletedCount := int(idx.deletedNodes.GetCardinality())
